@@ -162,8 +162,10 @@ ENC_ASSUMPTIONS = [
     "isinstance tests on a value of unknown type are uninterpreted type predicates; the only relation assumed is bool => numeric",
     "encode_set / encode_sequence / encode_datetype: signature contracts only (return a str or raise ValueError/TypeError); "
     "encode_time / encode_date / encode_units / format (text building with f-strings and textwrap): bounded drivers only",
-    "search loops: the body is verified for an arbitrary member; `exit fact == forall-closure of the fall-through fact` is itself "
-    "an obligation discharged with the definitional axioms of the table-search predicates",
+    "search loops `for x in TABLE: if P(x): return/raise` and any()/all() over a table: the body is executed for an arbitrary member; "
+    "after the loop `forall x in TABLE. not P(x)` is assumed, P read from the body on a bound variable - sound when the body is free "
+    "of side effects (no assignment - checked - and the calls in P are the uninterpreted / contracted pure ones); nested loops keep "
+    "contract-given fall-through / exit facts with the forall-closure as an obligation",
 ]
 
 
